@@ -10,6 +10,7 @@ RULE = ("non-trivial = a QR case with condition number > 1e3, a zero in the firs
         "or eigenvalues of both signs, or an overall scale beyond 2^+-12, or a structured spectrum (vanishing / nearly vanishing trace, small integers, all ratios at an end of the range) "
         "or structured eigenvectors (orthogonal to a natural start vector of the inverse iteration, small-integer planes), or a zero / nearly zero diagonal (hollow), "
         "or tuned to need one of the last sweeps the iteration allows (150 .. 200), or tuned so that the entries below the diagonal of the iterate cancel in a signed sum at the first tested sweeps, "
+        "or a helper case (Sign / Relative_Difference with a zero, opposite signs or arguments within 1e-6; Trace / Determinant / Invertible / Inverse on a non-square request, a size >= 3 or dependent rows; Householder statement by statement with n >= 2), "
         "or a coupled matrix with a diagonal entry equal (or next) to an eigenvalue, or a session (calls on one or two Matrix objects with in-place modifications between them); distinct by case text")
 LEVEL_TEXT = ("Theorems (Coq, over the reals, every dimension n >= 1): for a non-zero first column x the model of Householder_Matrix returns H = 1 - 2 u u^T with u well defined "
               "(|x - alpha e1|^2 = 2(|x|^2 - alpha x0) >= 2|x|^2 > 0), alpha^2 = |x|^2, H symmetric, H^T H = 1 and H x = alpha e1; "
@@ -69,10 +70,19 @@ LEVEL_TEXT = ("Theorems (Coq, over the reals, every dimension n >= 1): for a non
               "The generator aims at that corner of the ratio box ('corner' cases: every ratio at or near an end 0.1 / 0.8, graded spectra with a close pair at the small end, at the large end, anywhere; same and opposite sign; "
               "sizes 1..7 with 6 and 7 most often; all eigenvector classes; Eigensystem, Eigenvectors, Eigenvalues, sessions and Find_Eigenvector_Rayleigh asked for both members of the closest pair), and S4 evaluates "
               "'the returned pairs cover every eigenvalue' both on the values (eigensystem:spectrum) and on the vectors (eigensystem:orthogonal: |v_i . v_j| <= 2 * residual slack / smallest gap for distinct eigenvalues). "
+              "Seventh pass (C15_Model2.v, C15_Proofs_Helpers.v, C15_GenTie.v; table of modelled code: coverage/C15.md): the scalar helpers and the guards are now model terms compared with the library on every run "
+              "(ops scalars, trace, detg, invertible, invg, householder_steps; non-square requests among them): Sign(double), Sign(double, double), Relative_Difference, Matrix::Square / Trace / Invertible, the guards of Determinant and Inverse, "
+              "Eigenvectors, and Householder_Matrix statement by statement through Outer_Vector_Product, Product(double), Minus, Identity_Matrix. Theorems: Relative_Difference (the anchor's convergence metric) is total over the reals, 0 at (0, 0), inside [0, 2], "
+              "symmetric and 0 exactly on equal arguments (C15_relative_difference_total_metric); Sign(x, y) is |x| with the sign of y and squares to x^2 (C15_sign_transfers_sign); a non-square request ends the process in Trace, Determinant, Inverse and is not Invertible, "
+              "in every number type (C15_nonsquare_requests_rejected); what the guarded Inverse returns is a left inverse (C15_guarded_inverse_is_left_inverse); Matrix::Trace returns the sum of the diagonal and the values Eigenvalues returns add up to exactly "
+              "the value Trace returns (C15_library_trace, C15_eigenvalues_sum_is_library_trace); Eigenvectors = second components of Eigensystem (C15_eigenvectors_are_eigensystem_second). "
+              "T-tie: Sign, Sign(x, y), Relative_Difference are regenerated from clang's AST of src/Special_Functions.cpp on every run (Gen_C15_Formulas.v) and proved equal to the hand model, and alpha of Householder_Matrix is the generated Sign(x.Norm(), -x[0]) "
+              "(C15_generated_Sign_is_model, _Sign2_is_model, _Relative_Difference_is_model, _Sign2_is_householder_alpha; under LitLaws: the literals 0.0, 1.0 are 0, 1, which holds in the reals, C15_literal_laws_hold_in_R). "
+              "Not a theorem: householder_steps = householder (both terms are run against the library and must agree with it bit for bit). "
               "Where the library leaves the property at the ends of the double range, on matrices whose leading coordinate subspaces miss a dominant eigenvector, or when the start vector is an eigenvector, "
               "the failing clause carries the input region in its signature (known_findings.d/C15.json: K-C15-1..5).")
 LEVEL_NOTE = ("Coq 8.16.1 kernel, theorems over R (axioms of the real numbers as printed by Print Assumptions); hand-written model tied by differential correspondence "
-              "(extraction with ExtrOcamlBasic only); every loop of the modelled code is bounded by a literal (200 sweeps, 100 inverse iterations)")
+              "(extraction with ExtrOcamlBasic only); Sign / Sign(x,y) / Relative_Difference additionally tied by translation from clang's AST (tools/cxx2gallina.py) with the literal laws LitLaws as the only premise; coverage/C15.md lists which code is modelled line by line, by specification, or not; every loop of the modelled code is bounded by a literal (200 sweeps, 100 inverse iterations)")
 TOL = (1e-12, 1e-300)
 TRUSTED = ["libm sqrt / fabs are IEEE operations on both sides; the Python references (Jacobi sweeps, Fraction determinant, Gram-Schmidt) are independent of the model"]
 ASSUMPTIONS = ["the symmetric test matrices are Q diag(lambda) Q^T formed in floating point and then symmetrised exactly (M[i][j] = M[j][i])",
